@@ -370,7 +370,7 @@ def has_inf(o):
     if o is None:
         return False
     s = dumps(o)
-    return '"inf"' in s or '"-inf"' in s
+    return '"inf"' in s or '"-inf"' in s or '"bad:' in s      # (or a value / label the decoder could not take: never a model value)
 
 
 def with_array_queries(src, seen):
